@@ -139,7 +139,10 @@ def elem_literal(r):
 def expand(text, which):
     for tok, v in ELEMS.items():
         if tok in text:
-            text = text.replace(tok, v[which])
+            if tok.startswith("@P") and which == 1:
+                text = " ".join(text.replace(tok, alt) for alt in v[1])       # a pool in the head: one rule per alternative
+            else:
+                text = text.replace(tok, v[which])
     return text
 
 def bform(r):
@@ -186,9 +189,17 @@ def rule(r):
         head = "p(X) | q(X)"
     elif k < 0.88:
         head = "&tel { %s }" % hform(r)
-    else:
+    elif k < 0.94:
         head = "-p(X)"
-    if "'" in head:
+    else:
+        # classical negation in front of a pool whose alternatives differ in arity, present and future
+        # (the reading writes one rule per alternative: a pool in the instance would go through the same code as the schema)
+        alts = r.choice([["-p'(X)", "-p'(X,X+1)"], ["-q'(1)", "-q'(X,2)"], ["-p(X)", "-p(X,1)"], ["-p''(X,X)", "-p''(X)"], ["-q'(X)", "-q'(1..X,X)"]])
+        tok = "@P%d@" % len(ELEMS)
+        pool = alts[0][:alts[0].index("(")] + "(" + ";".join(a[a.index("(") + 1:-1] for a in alts) + ")"
+        ELEMS[tok] = (pool, alts)
+        head = tok
+    if "'" in head or head.startswith("@P"):
         body = [b for b in body if "&tel" not in b and "'" not in b.split("(")[0]]
     return part, "{} :- {}.".format(head, ", ".join(body))
 
